@@ -57,6 +57,32 @@ def apply_shared(chk, prefixes, part="core"):
     return res
 
 
+def add_shared_verdicts(chk, prefixes, part="core"):
+    """for a check that has its own machinery and additionally owns some clauses of the shared run stage: only the
+    violations (and the run count) are taken over"""
+    res = stage.shared(chk, part)
+    for d in res["design_violations"]:
+        if d["inv"] == "PropsHold" and any(d["clause"].split("/")[0].startswith(p) for p in prefixes):
+            base = d["clause"].split("/")[0]
+            chk.violation(base, "design:%s" % d["clause"], "TLC: clause %s violated by a behaviour of Run.tla itself (case %s)" % (d["clause"], d["key"]))
+    n = 0
+    for clause, hits in sorted(res["verdicts"].items()):
+        base = clause.split("/")[0]
+        if not any(base.startswith(p) for p in prefixes):
+            continue
+        for h in hits:
+            n += 1
+            c = h["cfg"]
+            chk.violation(base, "%s|dry=%d|stop=%d" % (clause, int(c["dry"]), int(c["stop"])),
+                          "cfg=%s fault=%s prog=%s status=%s steps=%s verdict=%s escaped=%s" % (
+                              json.dumps(c, sort_keys=True), h["fault"], json.dumps(h["prog"]), h["status"], h["step_status"], h["verdict"], h["escaped"]),
+                          {"prog": h["prog"], "cfg": c, "fault": h["fault"], "fault_kind": h["fault_kind"], "clause": clause})
+    chk.extra["run_cluster"] = {"runs_of_the_shared_stage": res["n_runs"], "cached": res.get("cached", False), "wall_s": res["wall_s"],
+                                "note": "real runs with --name selecting random subsets of scenarios / outline rows, modelled in Run.tla "
+                                        "(NameMatch) and judged by the selection clauses of Props_Run.tla under the id C10.name_in_run"}
+    return res
+
+
 def replay_case(chk, payload, prefixes):
     from run import gen as G, cases as C, drive
     from vlib import trace
